@@ -20,7 +20,8 @@ AMTS = [1, 2, 3, 7, 64, 1000]
 CALLS = [("read", None)] + [("read", n) for n in AMTS] + [("read1", n) for n in AMTS] + [("read1", None)] + \
         [("readinto", n) for n in AMTS] + [("read", 0)]
 SINGLE = [("stream", a) for a in [None] + AMTS] + [("read_chunked", a) for a in [None] + AMTS] + \
-         [("iter", None), ("data", None), ("read-cache", None), ("stream-default", None)]
+         [("iter", None), ("data", None), ("read-cache", None), ("stream-default", None)] + \
+         [("pdata", c) for c in (("read", 1), ("read", 7), ("read1", 2), ("read1", 64), ("readinto", 3), ("read", 0))]
 
 
 # ------------------------------------------------------------------ response specs
@@ -31,7 +32,8 @@ def build_wire(spec):
     ce, body, inner = encode(coding, data)
     kind = framing[0]
     if kind == "chunked":
-        _, sizes, ext, trailers = framing
+        _, sizes, ext, trailers = framing[:4]
+        te_value = framing[4] if len(framing) > 4 else "chunked"  # coding names are case-insensitive (RFC 9112 7)
         if sizes == "one":
             sizes = [len(body)] if body else []
         elif sizes == "1-7-rest":
@@ -43,7 +45,7 @@ def build_wire(spec):
             sizes = [b - a for a, b in zip(cuts, cuts[1:]) if b > a]
         else:
             sizes = list(sizes)
-        head, wire, marks = frame(body, "chunked", chunks=sizes, ext=ext, trailers=trailers, ce=ce)
+        head, wire, marks = frame(body, "chunked", chunks=sizes, ext=ext, trailers=trailers, ce=ce, te_value=te_value)
     else:
         head, wire, marks = frame(body, kind, ce=ce)
         marks = marks + [len(head) + b for b in inner]
@@ -69,6 +71,13 @@ def specs(thorough):
                         continue
                     for dc in (True, False):
                         out.append((size, coding, fr, seg, dc))
+    # the transfer-coding name in another spelling: http.client de-chunks it, so every method must agree
+    for size in (0, 5, 70):
+        for coding in ("identity", "gzip", "zstd2"):
+            for te in ("Chunked", "CHUNKED"):
+                for seg in ("whole", "marks"):
+                    for dc in (True, False):
+                        out.append((size, coding, ("chunked", "1-rest", False, False, te), seg, dc))
     # every composition of a tiny identity body into <= 3 chunks
     for size in (1, 2, 5):
         for comp in compositions(size, 3):
@@ -193,6 +202,14 @@ def run_single(segs, prog, dc, expected, chunked):
                 parts = list(r.read_chunked(amt, decode_content=dc))
             elif kind == "iter":
                 parts = list(r)
+            elif kind == "pdata":
+                # a partial read, then .data for the rest - looked at twice (and through read(cache_content) consumers)
+                parts = [do_call(r, amt, dc)]
+                d1 = r.data or b""
+                d2 = r.data or b""
+                if d2 != d1:
+                    return Bad("data-unstable", _describe(d2, d1), "same bytes on every access", None)
+                parts.append(d1)
             elif kind == "read-cache":
                 parts = [r.read(decode_content=dc, cache_content=True)]
                 d2 = r.data or b""
